@@ -3,14 +3,14 @@ CONSTANTS
   NodeSeq <- N2
   Elems = {"x", "y"}
   Defects = {}
-  Types = {"gcounter", "pncounter", "flag", "lww", "mvreg", "orset", "ormap"}
+  Types = {"orset", "ormap", "mvreg"}
   Amounts = {1}
   MaxTs = 2
   MaxBatch = 2
-  MaxUpd = 2
+  MaxUpd = 1
   MaxDeliver = 2
   MaxMerge = 1
-  MaxCompact = 1
+  MaxCompact = 0
 CONSTRAINT Bound
 VIEW View
-INVARIANTS Laws Convergence
+INVARIANTS Laws Growing Convergence
